@@ -1096,7 +1096,7 @@ class PseudoNetCDFFile(PseudoNetCDFSelfReg, object):
         if dims is None:
             maskdims = getattr(where, 'dimensions', dims)
         else:
-            maskdims = dims
+            maskdims = tuple(dims)
 
         coordkeys = self.getCoords()
         outf = self.copy(variables=False)
